@@ -6,6 +6,7 @@ import (
 	"go/token"
 	"go/types"
 	"strings"
+	"sync"
 
 	"golang.org/x/tools/go/ssa"
 )
@@ -38,6 +39,119 @@ func Strip(v ssa.Value) ssa.Value {
 
 // Path returns the access path of v.
 func Path(v ssa.Value) string { return path(v, 0) }
+
+// ---------------------------------------------------------------------------
+// name-independent labels for locals, captured variables and phis: renaming a
+// variable in the repository must not change any access path.
+
+// keptComments are allocation kinds the SSA builder itself names.
+var keptComments = map[string]bool{"varargs": true, "slicelit": true, "rangeindex": true, "rangeint.iter": true, "makeslice": true}
+
+// TypeLabel renders a type without package qualifiers: Member, *memberState, []string, map[string]string.
+func TypeLabel(t types.Type) string {
+	return types.TypeString(t, func(*types.Package) string { return "" })
+}
+
+var (
+	labelMu     sync.Mutex
+	allocLabels = map[*ssa.Function]map[*ssa.Alloc]string{}
+)
+
+// allocLabel names an address-taken local by its type, with an ordinal among
+// the locals of the same type in the function (source order).
+func allocLabel(al *ssa.Alloc) string {
+	if keptComments[al.Comment] {
+		return al.Comment
+	}
+	fn := al.Parent()
+	if fn == nil {
+		return al.Name()
+	}
+	labelMu.Lock()
+	defer labelMu.Unlock()
+	m, ok := allocLabels[fn]
+	if !ok {
+		m = map[*ssa.Alloc]string{}
+		count := map[string]int{}
+		for _, b := range fn.Blocks {
+			for _, in := range b.Instrs {
+				a, ok := in.(*ssa.Alloc)
+				if !ok || keptComments[a.Comment] {
+					continue
+				}
+				lab := "?"
+				if pt, ok := a.Type().Underlying().(*types.Pointer); ok {
+					lab = TypeLabel(pt.Elem())
+				}
+				count[lab]++
+				if count[lab] > 1 {
+					lab += "#" + fmt.Sprint(count[lab])
+				}
+				m[a] = lab
+			}
+		}
+		allocLabels[fn] = m
+	}
+	if l, ok := m[al]; ok {
+		return l
+	}
+	return al.Name()
+}
+
+// freeVarLabel names a captured variable by its type and ordinal.
+func freeVarLabel(fv *ssa.FreeVar) string {
+	lab := func(v *ssa.FreeVar) string {
+		if pt, ok := v.Type().Underlying().(*types.Pointer); ok {
+			return TypeLabel(pt.Elem())
+		}
+		return TypeLabel(v.Type())
+	}
+	me := lab(fv)
+	n := 0
+	for _, o := range fv.Parent().FreeVars {
+		if lab(o) == me {
+			n++
+		}
+		if o == fv {
+			break
+		}
+	}
+	if n > 1 {
+		me += "#" + fmt.Sprint(n)
+	}
+	return me
+}
+
+// phiLabel: builder-made phis (range index, && and ||) keep their kind; a phi
+// of a source variable is named by its block and its ordinal among the
+// variable phis of that block.
+func phiLabel(x *ssa.Phi) string {
+	b := x.Block()
+	switch x.Comment {
+	case "rangeindex", "rangeint.iter", "&&", "||":
+		return "phi:" + x.Comment + "@" + fmt.Sprint(b.Index)
+	}
+	n := 0
+	for _, in := range b.Instrs {
+		p, ok := in.(*ssa.Phi)
+		if !ok {
+			break
+		}
+		switch p.Comment {
+		case "rangeindex", "rangeint.iter", "&&", "||":
+			continue
+		}
+		n++
+		if p == x {
+			break
+		}
+	}
+	s := "phi@" + fmt.Sprint(b.Index)
+	if n > 1 {
+		s += "#" + fmt.Sprint(n)
+	}
+	return s
+}
 
 func fieldName(t types.Type, idx int) string {
 	if p, ok := t.Underlying().(*types.Pointer); ok {
@@ -77,7 +191,7 @@ func path(v ssa.Value, d int) string {
 		}
 		return "$" + x.Name()
 	case *ssa.FreeVar:
-		return "^" + x.Name()
+		return "^" + freeVarLabel(x)
 	case *ssa.Const:
 		return constStr(x)
 	case *ssa.FieldAddr:
@@ -130,12 +244,9 @@ func path(v ssa.Value, d int) string {
 		// in int does not: int(k)+1 and int(k+1) must not get the same path
 		return "(" + path(x.X, d+1) + x.Op.String() + path(x.Y, d+1) + ")" + narrowArith(x)
 	case *ssa.Alloc:
-		if x.Comment != "" {
-			return "&local:" + x.Comment
-		}
-		return "&local:" + x.Name()
+		return "&local:" + allocLabel(x)
 	case *ssa.Phi:
-		return "phi:" + x.Comment + "@" + fmt.Sprint(x.Block().Index)
+		return phiLabel(x)
 	case *ssa.Slice:
 		lo, hi := "", ""
 		if x.Low != nil {
